@@ -30,7 +30,7 @@ import (
 )
 
 var c19Names = []string{"10", "9", "B", "a", "é"}
-var c19Kinds = []string{"absent", "good1", "good2", "good3", "empty", "cut-in-header", "cut-in-entity", "cut-last-byte", "corrupt", "sub-directory", "vanishes", "replaced-by-directory", "symlink-to-good-file", "dangling-symlink", "good2-header-last"}
+var c19Kinds = []string{"absent", "good1", "good2", "good3", "empty", "cut-in-header", "cut-in-entity", "cut-last-byte", "corrupt", "sub-directory", "vanishes", "replaced-by-directory", "symlink-to-good-file", "dangling-symlink", "good2-header-last", "good-ending-in-LF", "good-ending-in-CR"}
 
 var c19GoodCache [][]byte
 
@@ -69,6 +69,19 @@ func c19Good() [][]byte {
 		}
 		c19GoodCache = append(c19GoodCache, append(append([]byte{}, full[len(hdr):]...), hdr...))
 	}
+	// a valid message whose last byte is 0x0A and one whose last byte is 0x0D (the trip-level delay of the
+	// last trip update is 10 / 13): bytes that look like a line end are part of the message
+	for _, d := range []int32{10, 13} {
+		ts := uint64(1700000000 + 60)
+		m := newFeed(&ts)
+		m.Entity = []*gtfsrt.FeedEntity{{Id: sp("e0"), TripUpdate: &gtfsrt.TripUpdate{Trip: &gtfsrt.TripDescriptor{TripId: sp("063000_L..N01"), RouteId: sp("L"), StartDate: sp("20231114")},
+			StopTimeUpdate: []*gtfsrt.TripUpdate_StopTimeUpdate{{StopId: sp("L02N"), Arrival: &gtfsrt.TripUpdate_StopTimeEvent{Time: cp2(int64(ts) + 100)}}}, Delay: cp32(d)}}}
+		b := marshalFeed(m)
+		if b[len(b)-1] != byte(d) {
+			harnessBug("the message does not end in byte %d", d)
+		}
+		c19GoodCache = append(c19GoodCache, b)
+	}
 	return c19GoodCache
 }
 
@@ -87,6 +100,10 @@ func c19Content(kind int) []byte {
 		return g[2]
 	case "good2-header-last":
 		return g[3]
+	case "good-ending-in-LF":
+		return g[4]
+	case "good-ending-in-CR":
+		return g[5]
 	case "empty":
 		return []byte{}
 	case "cut-in-header":
@@ -331,7 +348,7 @@ func scratchBase() string {
 	return ""
 }
 
-var c19QuickKinds = []int{0, 1, 2, 4, 6, 8, 9, 10, 11, 12, 13, 14}
+var c19QuickKinds = []int{0, 1, 2, 4, 6, 8, 9, 10, 11, 12, 14, 15}
 
 // c19NameOrder: good files under names whose byte order differs from "natural", extension-less,
 // case-insensitive or numeric order: every subset of 4 of 18 names.
@@ -576,7 +593,7 @@ func init() {
 	register(&Check{
 		ID:    "C19",
 		Level: "fault_enumeration",
-		Rule: "every assignment of {absent, good1, good2, good3, empty, cut-in-header, cut-in-entity, cut-last-byte, corrupt, sub-directory, vanishes after listing, replaced by a directory after listing, symlink to a good file, dangling symlink} to the names 10, 9, B, a, é (thorough: 14^5 = 537 824 directories; quick: the first 4 names, 14^4 = 38 416) - x 2 creation orders, on a real temporary directory; plus every 4-subset of 18 file names (byte order differing from extension-less / natural / case-insensitive order; names that are not valid UTF-8, contain a newline, start with a blank, a dot or a dash, are 240 bytes long); plus runs of 1..520 bad entries in a row before / between / after good files; a good file in a non-canonical field order (header last); plus 3-name directories replayed while the wall clock jumps 2 s before chosen Next calls (the source reports progress once per second); plus directories in which one of three good files is 70 KiB / 1 MiB / 4 MiB / 17 MiB large, at each position; " +
+		Rule: "every assignment of {absent, good1, good2, good3, empty, cut-in-header, cut-in-entity, cut-last-byte, corrupt, sub-directory, vanishes after listing, replaced by a directory after listing, symlink to a good file, dangling symlink} to the names 10, 9, B, a, é (thorough: 14^5 = 537 824 directories; quick: the first 4 names, 14^4 = 38 416) - x 2 creation orders, on a real temporary directory; plus every 4-subset of 18 file names (byte order differing from extension-less / natural / case-insensitive order; names that are not valid UTF-8, contain a newline, start with a blank, a dot or a dash, are 240 bytes long); plus runs of 1..520 bad entries in a row before / between / after good files; good files in a non-canonical field order (header last) and ending in the bytes 0x0A / 0x0D; plus 3-name directories replayed while the wall clock jumps 2 s before chosen Next calls (the source reports progress once per second); plus directories in which one of three good files is 70 KiB / 1 MiB / 4 MiB / 17 MiB large, at each position; " +
 			"non-trivial = distinct directories with >= 2 entries; oracle = independent parses of the readable, parseable entries in byte order of their names, nil afterwards, and equality of the journals",
 		Assumptions: []string{"unreadable means: is a directory or no longer exists (the checks run as root, so permission faults cannot be produced)", "whether a damaged file still 'parses as GTFS-realtime' is decided independently of the library, by strictly decoding its bytes as a FeedMessage"},
 		Scenarios: func(tier string) []*Scenario {
